@@ -1,7 +1,7 @@
 //! Batch driver: seeded runs across OS threads (each run is self-contained, so results do
 //! not depend on the number of workers), violation handling (minimise, write replay file,
 //! known-finding matching), replay, determinism self-test, evidence.
-use crate::common::{Metrics, RunOut, Tier, Verdict, Violation};
+use crate::common::{viol, Metrics, RunOut, Tier, Verdict, Violation};
 use crate::rng::{mix, Fnv, Rng};
 use serde_json::{json, Value};
 use std::collections::{BTreeMap, BTreeSet};
@@ -151,7 +151,7 @@ pub fn run_batch_opt<P: Prop>(p: &P, tier: Tier, seed: u64, n_runs: u64, wall_ca
                 }
                 let mut r = Rng::new(run_seed(seed, p.id(), idx));
                 let case = p.gen(&mut r, tier, idx);
-                let out = p.run(&case);
+                let out = run_guarded(p, &case);
                 let mut a = agg.lock().unwrap();
                 a.evaluations += 1;
                 a.absorb(idx, &out.metrics, keep_hashes);
@@ -256,7 +256,7 @@ fn same_class(a: &Violation, b: &Violation) -> bool {
 }
 
 fn run_for_class<P: Prop>(p: &P, case: &P::Case, want: &Violation) -> Option<(Violation, Vec<crate::sched::Trace>, u64)> {
-    let out = p.run(case);
+    let out = run_guarded(p, case);
     match out.verdict {
         Verdict::Violation(v) if same_class(&v, want) => Some((v, out.traces, out.metrics.log_hash)),
         _ => None,
@@ -389,7 +389,7 @@ pub fn replay<P: Prop>(p: &P, path: &str) -> i32 {
             return 2;
         }
     };
-    let out = p.run(&case);
+    let out = run_guarded(p, &case);
     println!("replay property={} file={}", p.id(), path);
     match out.verdict {
         Verdict::Violation(v) => {
@@ -570,5 +570,19 @@ pub fn dump_hashes<P: Prop>(p: &P, tier: Tier, n: u64) {
     }
     for f in &res.found {
         println!("{} {} violation {}", p.id(), f.idx, f.violation.class);
+    }
+}
+
+
+/// `Prop::run` with a net under it: library code that a check runs outside a simulated execution
+/// (a single-threaded baseline, say) panics on the harness's own thread; that is a verdict about
+/// the tree, not a reason for the check to die.
+pub fn run_guarded<P: Prop>(p: &P, case: &P::Case) -> RunOut {
+    match std::panic::catch_unwind(std::panic::AssertUnwindSafe(|| p.run(case))) {
+        Ok(o) => o,
+        Err(e) => {
+            let msg = e.downcast_ref::<String>().cloned().or_else(|| e.downcast_ref::<&str>().map(|s| s.to_string())).unwrap_or_else(|| "<non-string panic payload>".into());
+            RunOut { verdict: viol("panic:outside-the-simulated-execution", "", msg.lines().next().unwrap_or("").to_string()), metrics: Metrics::default(), traces: vec![] }
+        }
     }
 }
